@@ -294,6 +294,6 @@ package mod
 //@   requires vc != nil && vc.module != nil && vc.module.sc != nil && vc.module.sc.ctx != nil
 //@   requires forall k string :: imp(has(s3db.tables, k) && s3db.tables[k] != nil, vtOK(s3db.tables[k]))
 //@   requires forall k string, i int :: imp(has(s3db.tables, k) && s3db.tables[k] != nil, vacShape(*s3db.tables[k].Tree.Root.crdt.Mast, i))
-//@   modifies vc.tableName, vc.beforeTime, vc.vacuumErr, puts, deletes, lastPutPrefix, lastPutName, lastPutOK, s3db.tables[vacName(values)].Tree.Root, historyDeletions, historyHandle, historySnapshot
+//@   modifies vc.tableName, vc.beforeTime, vc.vacuumErr, puts, deletes, lastPutPrefix, lastPutName, lastPutOK, s3db.tables[vacName(values)].Tree.Root, historyDeletions, historyHandle, historySnapshot, vacLastChildOld
 //@   ensures readonly-no-write: imp(len(values) == 2 && has(s3db.tables, vacName(values)) && s3db.tables[vacName(values)] != nil && old(s3db.tables[vacName(values)].Tree.Root.readonly), puts == old(puts) && deletes == old(deletes))
 //@   ensures rejected-no-effect: imp(result != nil, puts == old(puts) && deletes == old(deletes))
